@@ -57,13 +57,16 @@ class Result_:
         self.too_big = False
 
 
-def explore(body, start_bb, carriers, stop_at=None, track_ret=True, limit=6000, inject=None):
+def explore(body, start_bb, carriers, stop_at=None, track_ret=True, limit=6000, inject=None,
+            avoid=()):
     """carriers: dict local -> Carrier (state at entry of start_bb). Returns Result_."""
     res = Result_()
     seen = set()
     work = [(start_bb, carriers, None)]
     while work:
         bb, car, rv = work.pop()
+        if bb in avoid:
+            continue
         key = (bb, tuple(sorted((l, c.key()) for l, c in car.items())), rv)
         if key in seen:
             continue
